@@ -31,7 +31,8 @@ OFFSETS = [0, 3600, 7200, -18000, 19800, 20700, -34200, 50400, -43200, 86340, -8
 TS_MAX_NS = 253402207200 * 10 ** 9 + 999999999        # jiff Timestamp::MAX = 9999-12-30T22:00:00.999999999Z
 JR_BOUNDARY = ["same-conv-key", "selector"]
 BOUNDARY = ["at-instant", "none-before", "inverse-only", "chain-only", "two-targets", "self-rate", "dup-keys",
-            "empty-comm", "in-report-comm", "max-instant", "notations", "given-edge", "unused-report-comm", "lookup-none", "config-error"]
+            "empty-comm", "in-report-comm", "max-instant", "notations", "given-edge", "unused-report-comm", "lookup-none", "config-error",
+            "default-time"]
 
 
 def cfg_offset(cfg):
@@ -63,7 +64,8 @@ def render_instant(rng, ns, cfg, allow_date=True):
     secs, frac = divmod(local, 10 ** 9)
     dt = common.EPOCH + datetime.timedelta(seconds=secs)
     tok = {"y": dt.year, "m": dt.month, "d": dt.day, "time": None, "zone": zone}
-    if suffix == "" and allow_date and frac == 0 and (dt.hour, dt.minute, dt.second) == (0, 0, 0) and rng.random() < 0.6:
+    dh, dm, ds = [int(x) for x in (cfg.get("default_time") or "00:00:00").split(":")]
+    if suffix == "" and allow_date and frac == 0 and (dt.hour, dt.minute, dt.second) == (dh, dm, ds) and rng.random() < 0.6:
         return "%04d-%02d-%02d" % (dt.year, dt.month, dt.day), tok
     text = "%04d-%02d-%02dT%02d:%02d:%02d" % (dt.year, dt.month, dt.day, dt.hour, dt.minute, dt.second)
     digits = None
@@ -224,6 +226,8 @@ class C07(PropBase):
                 "prices": pc["prices"], "lookup": lookup, "before_ns": pc["before_ns"], "before": pc["before"],
                 "report_commodity": rc, "want": ["txns", "balance", "register", "balgrp"],
                 "mgroup_by": gb, "zone": zone, "mreport_tz": {"off": c13.FIXED[zone]}}
+        if pc.get("oracle_only"):
+            case["oracle_only"] = True
         if jr_kind == "selector" or (jr_kind is None and rng.random() < 0.2):
             names = c02.all_row_names(txns)
             for rep in ("balance", "register", "balgrp"):
@@ -240,6 +244,11 @@ class C07(PropBase):
         cfg = {}
         if rng.random() < 0.3 or kind == "notations":
             cfg["tz"] = {"offset": rng.choice(["+02:00", "-05:00", "+05:45", "+00:00", "-09:30"])}
+        if kind == "default-time" or (kind == "random" and rng.random() < 0.05):
+            # a configured default time other than midnight: a price entry (or a given time) written as a plain date is at
+            # that time of day in the journal zone, exactly like a date-only transaction
+            cfg["default_time"] = rng.choice(["12:00:00", "06:30:00", "23:59:59", "18:00:01"])
+            cfg.setdefault("tz", {"offset": rng.choice(["+02:00", "-05:00", "+00:00"])})
         comms = rng.sample(POOL, rng.randrange(2, 5))
         rc = rng.choice(comms)
         lookup = rng.choice(["txn-time", "txn-time", "last-price", "given-time", "given-time"])
@@ -273,6 +282,13 @@ class C07(PropBase):
         # instants for price entries
         def near():
             r = rng.random()
+            if cfg.get("default_time") and r < 0.6:
+                # at the default time of the civil day (journal zone) of a transaction, or of the day before / after
+                off = cfg_offset(cfg)
+                h, m, sec = [int(x) for x in cfg["default_time"].split(":")]
+                loc = rng.choice(tns) // 10 ** 9 + off
+                day = loc - loc % 86400 + rng.choice([-86400, 0, 0, 86400])
+                return (day + h * 3600 + m * 60 + sec - off) * 10 ** 9
             if r < 0.5 or kind in ("at-instant", "notations"):
                 return rng.choice(tns) + rng.choice([-1, 0, 0, 1])
             if before_ns is not None and (r < 0.7 or kind == "given-edge"):
@@ -357,9 +373,12 @@ class C07(PropBase):
         else:
             cfg["report_commodity"] = rc
         text = common.render_journal(txns, common.gen_layout(rng))
-        return {"op": "price", "kind": kind, "cfg": cfg, "txns": txns, "text": text, "prices": prices,
+        case = {"op": "price", "kind": kind, "cfg": cfg, "txns": txns, "text": text, "prices": prices,
                 "lookup": lookup, "before_ns": (str(before_ns) if before_ns is not None else None), "before": before,
                 "report_commodity": rc}
+        if cfg.get("default_time"):
+            case["oracle_only"] = True       # the model's price op resolves date-only tokens at midnight; the oracle works on instants
+        return case
 
     def impl_case(self, case):
         if case.get("op") == "run":
